@@ -4,10 +4,11 @@ SPEC = {
     'coq_dir': 'C32',
     'claimed': False,
     'theorems': [
-        'C32_acked_contiguous_increasing', 'C32_refuted_gap',
-        'C32_recorded_le_acked', 'C32_recorded_le_acked_refuted',
+        'C32_acked_contiguous_increasing', 'C32_acked_contiguous_increasing_holds',
+        'C32_recorded_le_acked', 'C32_recorded_le_acked_holds',
         'C32_block_kinds_consecutive', 'C32_getPushData_exact', 'C32_getPushData_no_panic',
         'C32_oversize_block_stalls', 'C32_recorded_monotone', 'C32_fix_no_skip', 'C32_fix_progress',
+        'C32_deliverable_block_posted',
     ],
     'allowed_axioms': [],
     'shard': 70,
@@ -49,12 +50,15 @@ SPEC = {
         'task that starts with nothing stored (re-taken when such a task is restarted before anything was acknowledged)',
     ],
     'manifest': {
-        'level_text': 'full for block, header and tx-result pushes (consecutive integers from the resume point, stored sequence '
-                      '= last acknowledged, all event sequences incl. failures, sleeps, deactivation, re-registration, restart); '
-                      'partial for receipt-type pushes: guard "no run of deliverable entries fills the size limit exactly", the '
-                      'full statement is refuted (known finding 1: skipped but counted at totalSize+size == maxSize) and '
-                      'reproduced on the Go code; liveness remark proved and reproduced (a deliverable block larger than the '
-                      'limit is never passed)',
+        'level_text': 'full for every push type (block, header, tx receipt, tx result, EVM event), every sequence store and '
+                      'size limit: the acknowledged list is exactly the deliverable sequence numbers after the resume point, '
+                      'increasing, and the stored last push sequence is the registration value or covered by acknowledgements, '
+                      'over all event sequences incl. failures, sleeps, deactivation, re-registration, restart; no guard '
+                      '(finding C32-F1, skipped but counted at totalSize+size == maxSize in getTxReceipts/getEVMEvent, is '
+                      'fixed in /repo: the loop breaks on >=). Liveness remark proved and reproduced, not part of the '
+                      'property: a deliverable block whose message is not smaller than the limit is never passed by a '
+                      'receipt-type subscriber (push_test.go Test_PostEVMEvent_bigsize pins this); below the limit the next '
+                      'round posts it',
         'level_note': 'event-alphabet abstraction of goroutines/timers; in-memory store doubles; sizes are model inputs; '
                       'double-goroutine start windows and crash between post and record not modelled',
         'technique': 'Coq proof (invariant by induction over event sequences, loop lemmas for getPushData) + in-kernel '
